@@ -6,6 +6,7 @@ import contextlib
 import io
 import os
 import shutil
+import sys
 import uuid
 
 from .. import common
@@ -444,6 +445,134 @@ def _w_rotation(ctx, cfg, ops, iobs):
 WITNESS_CHECKS = {"chdir-fails-after-stack-rewrite": _w_chdir_fail, "pushd-n-is-not-a-rotation": _w_rotation}
 
 
+
+# ------------------------------------------------------------------ stream 2: the real command loop, relative paths, symlinks
+REL_ARGS = ["..", "deep", "x", "../b", "../a", "link", "link/..", "linkb", "linkb/x", "linkb/..", "a", "b", "a/deep", "a/deep/..", ".", "-", "../.."]
+
+
+def _loop_history(item):
+    """run one history of command LINES through the real BaseShell.default (the command loop's body) in a scratch tree with
+    symlinks into deeper directories; after every line report ($PWD, os.getcwd(), realpath($PWD), error text)"""
+    lines, seed, direct = item
+    common.setup_repo_imports()
+    import builtins
+
+    from xonsh.built_ins import XSH
+    from xonsh.execer import Execer
+    from xonsh.shells.base_shell import BaseShell
+
+    if not getattr(builtins, "__xv_c16_loop__", False):
+        XSH.load(execer=Execer(), inherit_env=False)
+        builtins.__xv_c16_loop__ = True
+    env = XSH.env
+    root = os.path.realpath(str(common.scratch_root() / ("c16l-" + uuid.uuid4().hex[:8])))
+    for d in ("a/deep", "b/x"):
+        os.makedirs(os.path.join(root, d))
+    os.symlink(os.path.join(root, "a", "deep"), os.path.join(root, "link"))
+    os.symlink(os.path.join(root, "b"), os.path.join(root, "linkb"))
+    import xonsh.dirstack as ds
+
+    ds.DIRSTACK = []
+    os.chdir(root)
+    env["PWD"] = root
+    env.pop("OLDPWD", None)
+    env["HOME"] = root
+    env["CDPATH"] = []
+    env["AUTO_PUSHD"] = False
+    env["PUSHD_SILENT"] = True
+    env["XONSH_SHOW_TRACEBACK"] = False
+    shell = BaseShell(execer=XSH.execer, ctx={"__name__": "xv"})
+    XSH.shell = type("S", (), {"shell": shell})()
+    out = []
+    try:
+        for ln in lines:
+            ln = ln.replace("@ROOT@", root)
+            errbuf = io.StringIO()
+            interrupted = False
+            with contextlib.redirect_stderr(errbuf), contextlib.redirect_stdout(errbuf):
+                try:
+                    w = ln.split()
+                    if direct and w[0] in ("cd", "pushd", "popd"):
+                        # the command function alone: what it leaves behind is observed BEFORE the loop's _fix_cwd can heal it
+                        if w[0] == "cd":
+                            r_ = ds.cd(w[1:])
+                        elif w[0] == "pushd":
+                            r_ = ds.pushd_fn(w[1], quiet=True)
+                        else:
+                            r_ = ds.popd_fn(quiet=True)
+                        if r_ and len(r_) > 1 and r_[1]:
+                            print(r_[1], file=sys.stderr)
+                    else:
+                        shell.default(ln + "\n")
+                except KeyboardInterrupt:
+                    interrupted = True  # the real loops (readline / prompt-toolkit cmdloop) catch it and go on
+                except SystemExit:
+                    pass
+            pwd = env.get("PWD")
+            try:
+                cwd = os.getcwd()
+            except OSError:
+                cwd = None
+            out.append(
+                {
+                    "pwd": None if pwd is None else os.path.relpath(pwd, root),
+                    "cwd": None if cwd is None else os.path.relpath(cwd, root),
+                    "pwd_real": None if pwd is None else os.path.relpath(os.path.realpath(pwd), root),
+                    "err": errbuf.getvalue()[-200:],
+                    "interrupted": interrupted,
+                }
+            )
+    finally:
+        os.chdir("/")
+        shutil.rmtree(root, ignore_errors=True)
+    return out
+
+
+def stream_loop(ctx, n, length, name="command-loop-relative-paths"):
+    ctx.stream_rule(
+        name,
+        "histories of command LINES run through the real BaseShell.default (the body of the command loop, incl. its `finally: "
+        "_fix_cwd()`) in a scratch tree whose symlinks point into DEEPER directories (link -> a/deep, linkb -> b): cd / pushd / popd "
+        "with relative arguments (.., link/.., linkb/x, -), Python lines that change the process directory behind the shell's back, "
+        "and such lines interrupted by KeyboardInterrupt (the loops catch it and continue); in half of the histories cd/pushd/popd are "
+        "called as functions, so that what they leave behind is seen before the loop's _fix_cwd can heal it. Oracle from the property, no model: "
+        "after EVERY line the directory $PWD names (symlinks resolved) is the process's working directory, and a line that printed "
+        "a cd error left both unchanged; non-trivial = a `..` right after entering through a symlink, or an out-of-band chdir",
+    )
+    items = []
+    for _ in range(n):
+        r = ctx.rng
+        lines = []
+        for _ in range(length):
+            k = r.random()
+            if k < 0.55:
+                lines.append(f"{r.choice(['cd', 'cd', 'pushd'])} {r.choice(REL_ARGS)}")
+            elif k < 0.65:
+                lines.append("popd")
+            elif k < 0.82:
+                lines.append(f"import os; os.chdir('@ROOT@/{r.choice(['a', 'a/deep', 'b', 'b/x', 'link', 'linkb'])}')")
+            else:
+                lines.append(f"import os; os.chdir('@ROOT@/{r.choice(['a', 'a/deep', 'b', 'b/x', 'link'])}'); raise KeyboardInterrupt")
+        items.append([lines, r.randrange(1 << 30), r.random() < 0.5])
+    results = common.map_in_child(_loop_history, items, per_item_timeout=60, label="c16-loop")
+    for (lines, _, direct), res in zip(items, results):
+        if res == common.HANG or (isinstance(res, dict) and "__exc__" in res):
+            raise common.InfraError(f"C16 command-loop worker failed: {res}")
+        nontriv = any("link" in ln and ".." in ln for ln in lines) or any("os.chdir" in ln for ln in lines)
+        ctx.case(name, repr(lines), nontriv, {"lines": lines[:6]})
+        prev = {"pwd": ".", "cwd": "."}
+        for i, (ln, o) in enumerate(zip(lines, res)):
+            ctx.count("loop/" + ("interrupt" if "KeyboardInterrupt" in ln else "chdir-behind" if "os.chdir" in ln else ln.split()[0]))
+            case = {"stream": name, "lines": lines[: i + 1], "command_functions_called_directly": direct}
+            if o["cwd"] != o["pwd_real"]:
+                ctx.spec_failure(case, o, "after the line, $PWD does not name the process's working directory", None)
+                break
+            if "cd:" in o["err"] and (o["pwd"], o["cwd"]) != (prev["pwd"], prev["cwd"]) and "os.chdir" not in ln:
+                ctx.spec_failure(case, {"before": prev, "after": o}, "a cd/pushd/popd that reported an error changed $PWD or the process directory", None)
+                break
+            prev = o
+
+
 def run(ctx):
     ctx.assumptions += [
         "paths fed to the commands are absolute and normalised; $CDPATH is empty",
@@ -455,6 +584,7 @@ def run(ctx):
     )
     replay_known(ctx)
     stream(ctx, ctx.n(1000, 10000), ctx.n(20, 30))
+    stream_loop(ctx, ctx.n(120, 1500), ctx.n(10, 16))
 
 
 def search(ctx, reason):
